@@ -5,8 +5,12 @@ import gen
 import mpgen
 
 
-def _setpar(lib, entry, p, v):
-    f = getattr(lib, entry + "_setParameter")
+def _setpar(lib, entry, h, p, v):
+    """what ExternalLibraryManager::setParameter(l, f, h, p, v) does: <f>_<h>_setParameter if it exists, else <f>_setParameter"""
+    try:
+        f = getattr(lib, "%s_%s_setParameter" % (entry, h))
+    except AttributeError:
+        f = getattr(lib, entry + "_setParameter")
     f.restype = gen.C.c_int
     f.argtypes = [gen.C.c_char_p, gen.C.c_double]
     return f(p.encode(), v)
@@ -30,7 +34,7 @@ def bhv_setpar(lib_a, lib_b, entry, hyps, nmp, nisv, nesv, pname, value, seed, n
             esv = [293.15] + [g.uniform(0.1, 1.0) for _ in range(nesv - 1)]
             cases.append((g0, g1, mp, isv, esv))
         before = [a.integrate(4, 1.0, c[0], c[1], [0.0] * a.nthf, c[2], c[3], c[4], c[4]) for c in cases]
-        out["rc_set"] = _setpar(la, entry, pname, value)
+        out["rc_set"] = _setpar(la, entry, h, pname, value)
         for c, o0 in zip(cases, before):
             oa = a.integrate(4, 1.0, c[0], c[1], [0.0] * a.nthf, c[2], c[3], c[4], c[4])
             ob = b.integrate(4, 1.0, c[0], c[1], [0.0] * b.nthf, c[2], c[3], c[4], c[4])
